@@ -1,13 +1,17 @@
 """C06 - OSC encoding round-trips, conforms to OSC 1.0 and is sized correctly.
 
-E1 (bounded-exhaustive input enumeration) in five parts.  Part lib runs on the
+E1 (bounded-exhaustive input enumeration) in six parts.  Part lib runs on the
 imported, uninitialised library; the others on the real encoder of an
 NRT-initialised library (the NRT score is the wire: every `send_bundle`
 becomes one score entry holding the datagram the RT interface would hand to
 the socket):
 
 * lib    - `_osclib.OscMessageBuilder` on its own: 4 addresses x <= 2
-           arguments over the plain OSC values.  Also the canary: a tree whose
+           arguments over the plain OSC values; typed arguments
+           (`add_arg(value, type)`: double, rgba, data-less booleans, arrays
+           from list values, strings that cannot be encoded) x <= 2; the
+           bundle builder with raw 64-bit timetags (0, 1, 2^32, 2^63, 2^64-1,
+           out of range) nested to depth 3.  Also the canary: a tree whose
            encoder is so broken that `sc3.init('nrt')` fails is reported from
            here (the NRT parts are then skipped, the run is not exhaustive).
 * msg    - every address x argument list (length <= bound) over a value
@@ -17,16 +21,41 @@ the socket):
            the property statement documents (mc/oracles/osc_client.py); the
            library's own `OscPacket` must agree; `_calc_msg_dgram_size` must
            not be below the real size.
+  msgx   - extension (audit round): further members of every value class
+           (2^32, 3- and 4-byte UTF-8, lone surrogates, trailing NUL, strings
+           that look like markers / addresses / tag strings, blobs with NUL
+           and 0xff bytes, float32 range edge and denormals, int-timed /
+           non-dyadic / unrepresentable completion bundles, nested unbalanced
+           markers, nested empty address), further addresses (non-ASCII,
+           every padding class, empty, NUL), each alone, paired with every
+           value and at each position of a 3-argument list; nesting chains to
+           depth 6 (thorough 8); 5-12 arguments.
 * bndl   - every bundle nesting up to depth 3 over 2 (thorough: 3) messages
            x 4 latencies (incl. nested earlier than parent); same comparisons
            with `_build_bundle` / `_calc_bndl_dgram_size`.
+  bndlx  - extension: 12 latencies (int, float, not a multiple of 2^-32,
+           1e6, 2^32, inf, nan) in all outer x nested pairs, 3 elements per
+           bundle, up to 17 elements, chains to depth 6 (8).
+* route  - other public entry points: `NetAddr.send_msg`, `send_bundle`,
+           `send_status_msg` (observed as score entries) and the `_send` of
+           the UDP and TCP interfaces on a recording socket (TCP: int32 size
+           prefix + packet).  RT `send_msg`/`send_bundle` are exercised by C07.
 * split  - element lists built from size classes whose total lands on
            limit + {-8,-4,0,4,8}, and many-small families, sent through
            `NetAddr.send_clumped_bundles` and through `NetAddr.sync` (driven
            inside a routine, a second routine signals after every hang);
-           datagrams = score entries.
+           audit round: `sync` with its default condition (the harness reads
+           the /sync id off the wire and calls the /synced responder), `sync`
+           without elements (None and []), `BundleNetAddr` (direct and via
+           `Server.bind()`) collecting through send_msg / send_bundle /
+           send_clumped_bundles and flushing on exit, `BundleNetAddr.sync`
+           with elements in the middle; element kinds non-ASCII string,
+           completion message, int-timed bundle.  Datagrams = score entries.
 * drecv  - real SynthDefs whose byte size straddles the limit, sent through
-           `SynthDef._do_send` with and without completion messages.
+           `SynthDef._do_send` with and without completion messages; audit
+           round: through `send(server)`, `send(None, function)`,
+           `add(completion_msg=function)` and to a non-local address; what is
+           sent must carry the definition bytes and the completion message.
 
 Every lib/msg/bndl case is encoded after a fixed predecessor message and every
 shard starts with a canary (same message before and after a refused one), so
@@ -34,12 +63,38 @@ an encoder that keeps state between messages is reported as a replayable
 disagreement of its own instead of as history-dependent noise.
 
 Don't-cares (the statement does not decide, every answer accepted): refusal
-vs. correct encoding of an empty blob, of a finite float beyond float32 range
-(refusal or +-inf), of a nested bundle that precedes its parent (C07 decides);
-whether "immediately" is timetag 1 or (NRT, absolute from zero) 0; a size
-prediction that raises instead of returning a number; the timetags of the
-clumps; empty datagrams produced by splitting; single elements that cannot fit
-any datagram."""
+vs. correct encoding of an empty blob, of a finite float whose nearest float32
+is an infinity (refusal or +-inf), of a nested bundle that precedes its parent
+(C07 decides); whether "immediately" is timetag 1 or (NRT, absolute from zero)
+0; the last two units of a timetag whose latency is not a multiple of 2^-32 s;
+a size prediction that raises instead of returning a number (today: non-ASCII
+address, [] argument, bundle-shaped completion message, nested bundle with
+time None - `send_clumped_bundles`, `sync(elements)` and `SynthDef._do_send`
+refuse such input although `send_bundle` accepts it; these inputs are
+therefore not in the split alphabet); the timetags of the clumps; empty
+datagrams produced by splitting; single elements that cannot fit any datagram;
+booleans as T/F or as int at the level of the plain builder; NRT `send_msg`
+wrapping the message into a bundle; lists that are neither message- nor
+bundle-shaped, addresses without a leading slash, tuples (not in the
+alphabet).
+
+Mutations tried in the audit round (quick tier, each caught): UTF-8 length
+assumed 2 bytes per non-ASCII char in `_calc_msg_dgram_size`
+(msg-size-underestimated-nonascii), address length counted in chars (same),
+empty address accepted (...-unrepresentable-accepted-empty-address), timetag
+masked to 64 bits (...-timetag-range), `encode('utf-8', 'replace')`
+(...-unencodable-string), int-timed completion bundle refused
+(msg-representable-refused), TCP size prefix little-endian
+(route-tcp-size-prefix), UDP datagram truncated
+(route-udp-nonconformant-bytes), `write_double` little-endian
+(lib-roundtrip-mismatch), `get_rgba` signed (lib-own-parser-disagrees),
+BundleNetAddr flush slice off by one / `append` for `extend` / sync forgets
+its elements (split-elements-lost-or-reordered, split-raised-bna*), default
+condition of `sync` only created without elements (split-raised-syncnc),
+`_clump_bundle` accepting float times only (split-raised-clumped/-sync),
+`SynthDef.send` not evaluating a completion function (drecv-raised), oversized
+/d_recv sent to a non-local address (drecv-datagram-over-limit-*), /d_load
+without the completion message (drecv-roundtrip-mismatch-d_load)."""
 
 import itertools
 import math
@@ -61,7 +116,9 @@ PARSER_BUDGET = 200000   # traced events allowed for one OscPacket() call
 # ---------------------------------------------------------------------------
 # JSON <-> Python values.  Cases are plain JSON; values JSON cannot carry are
 # wrapped: {"f": "inf"|"-inf"|"nan"}, {"b": hex} bytes, {"ba": hex} bytearray,
-# {"mv": hex} memoryview, {"m": [p, s, d1, d2]} MIDI 4-tuple.
+# {"mv": hex} memoryview, {"m": [p, s, d1, d2]} MIDI 4-tuple, {"u": [hex code
+# points]} a string that JSON/UTF-8 files cannot carry (lone surrogates),
+# {"z": n} n bytes 00 01 .. ff 00 01 ...
 
 def jv(x):
     if isinstance(x, dict):
@@ -76,6 +133,10 @@ def jv(x):
             return memoryview(bytes.fromhex(v))
         if k == 'm':
             return tuple(v)
+        if k == 'u':
+            return ''.join(chr(int(c, 16)) for c in v)
+        if k == 'z':
+            return bytes(range(256)) * (v // 256) + bytes(range(v % 256))
         raise core.HarnessError(f'bad json value {x!r}')
     if isinstance(x, list):
         return [jv(e) for e in x]
@@ -144,7 +205,8 @@ def is_nontrivial_value(v):
     if v is None or isinstance(v, bool) or isinstance(v, list):
         return True                                   # coerced / nested
     if isinstance(v, str):
-        return v in '[]' or (len(v.encode()) + 1) % 4 != 0   # marker / padded
+        return v in ('[', ']') or \
+            (len(v.encode('utf-8', 'surrogatepass')) + 1) % 4 != 0   # marker / padded
     if isinstance(v, (bytes, bytearray, memoryview)):
         return len(v) % 4 != 0
     if isinstance(v, float):
@@ -270,6 +332,27 @@ PURE = [v for v in (
 RUNAWAY = 16384      # no msg/bndl/lib case encodes to more than ~1 kB
 
 
+# Values the sc3 client never produces but the builder / reader of
+# sc3/base/_osclib.py implement (anchored type writers/readers): explicit
+# types double 'd' and rgba 'r', data-less booleans, arrays from list values.
+# [value, type]; type None = inferred by the builder.  (None -> 'N' is left
+# out: the statement documents None -> 0 and nothing else.)
+TYPED = [
+    [0.1, 'd'], [1e300, 'd'], [-2.5, 'd'], [{'f': 'inf'}, 'd'],
+    [0, 'r'], [16909060, 'r'], [2 ** 32 - 1, 'r'], [2 ** 32, 'r'], [-1, 'r'],
+    [True, None], [False, None],
+    [[1, 'a'], None], [[[0.5], [{'b': '31'}]], None], [[], None],
+    [[True, 2 ** 31], None],
+    [1, 'i'], ['abc', 's'], [{'b': '3132'}, 'b'], [0.5, 'f'],
+    [{'u': ['d800']}, None], ['\U0001d11e', None], ['ab', None],
+    [{'b': '00ff00'}, None],
+]
+ADDRS_LIBX = ['/a', '/abcd', '']
+RAW_TT = [0, 1, 2 ** 32, 2 ** 63, 2 ** 64 - 1, 2 ** 64, -1]
+RAW_TT_S = [1, 2 ** 63, 2 ** 64]
+RAW_M = [['/a'], ['/ab', {'b': '31'}, '\xf1']]
+
+
 def lib_cases():
     for a in ADDRS_Q:
         yield {'lib': [a]}
@@ -278,6 +361,27 @@ def lib_cases():
         for v in PURE:
             for w in PURE:
                 yield {'lib': [a, v, w]}
+    # typed arguments through add_arg(value, type)
+    for a in ADDRS_LIBX:
+        yield {'libx': [a]}
+        for t in TYPED:
+            yield {'libx': [a, t]}
+        if a == '':
+            continue
+        for t in TYPED:
+            for u in TYPED:
+                yield {'libx': [a, t, u]}
+    # the bundle builder on its own: raw 64-bit timetags, nesting
+    for t in RAW_TT:
+        yield {'libb': [t]}
+        for m in RAW_M:
+            yield {'libb': [t, m]}
+        for u in RAW_TT:
+            for m in RAW_M:
+                yield {'libb': [t, m, [u, m]]}
+                yield {'libb': [t, [u, m], m]}
+            for w in RAW_TT_S:
+                yield {'libb': [t, [u, [w, RAW_M[1]]]]}
 
 
 def lib_standalone(py):
@@ -290,7 +394,101 @@ def lib_standalone(py):
             "print(d, OscPacket(d).messages[0].message.params)\n")
 
 
+def build_raw_bundle(b):
+    ol = osclib()
+    bb = ol.OscBundleBuilder(b[0])
+    for e in b[1:]:
+        if isinstance(e[0], str):
+            mb = ol.OscMessageBuilder(e[0])
+            for v in e[1:]:
+                mb.add_arg(v)
+            bb.add_content(mb.build())
+        else:
+            bb.add_content(build_raw_bundle(e))
+    return bb.build()
+
+
+def libx_standalone(case):
+    if 'libx' in case:
+        py = jv(case['libx'])
+        return ("from sc3.base._osclib import OscMessageBuilder, OscPacket\n"
+                f"b = OscMessageBuilder({py[0]!r})\n"
+                f"for v, t in {pyrepr([list(x) for x in py[1:]])}:\n"
+                "    b.add_arg(v, t)\n"
+                "d = b.build().dgram\n"
+                "print(d, OscPacket(d).messages[0].message.params)\n")
+    return ("from sc3.base._osclib import *\n"
+            "def build(b):\n"
+            "    bb = OscBundleBuilder(b[0])\n"
+            "    for e in b[1:]:\n"
+            "        if isinstance(e[0], str):\n"
+            "            mb = OscMessageBuilder(e[0])\n"
+            "            for v in e[1:]:\n"
+            "                mb.add_arg(v)\n"
+            "            bb.add_content(mb.build())\n"
+            "        else:\n"
+            "            bb.add_content(build(e))\n"
+            "    return bb.build()\n"
+            f"d = build({pyrepr(jv(case['libb']))}).dgram\n"
+            "print(d, [(m.time, m.message.address, m.message.params) "
+            "for m in OscPacket(d).messages])\n")
+
+
+def check_libx_once(case):
+    """Typed arguments / raw bundles through the plain builders."""
+    vd = Verdict()
+    if 'libx' in case:
+        py = jv(case['libx'])
+        targs = [list(x) for x in py[1:]]
+        expected = oc.exp_typed_message(py[0], targs, vd)
+        flat = [x[0] for x in targs]
+    else:
+        py = jv(case['libb'])
+        expected = oc.exp_raw_bundle(py, vd)
+        flat = py
+    try:
+        w = osclib().OscMessageBuilder('/w')
+        w.add_arg(7)
+        w.add_arg('w')
+        w.build()
+    except Exception:
+        pass
+    try:
+        if 'libx' in case:
+            b = osclib().OscMessageBuilder(py[0])
+            for v, t in targs:
+                b.add_arg(v, t)
+            dgram = b.build().dgram
+        else:
+            dgram = build_raw_bundle(py).dgram
+        _last['dgram'] = dgram
+        err = None
+    except Exception as e:
+        dgram, err = None, e
+    dis = []
+    if err is not None:
+        outcome = ['refused', exc_name(err)]
+        if vd.status == ACCEPT:
+            dis.append(('lib-representable-refused', 'accepted',
+                        f'{exc_name(err)}: {err}'[:300], ''))
+    elif vd.status == REFUSE:
+        why = vd.refusal_reasons()
+        dis.append(('lib-unrepresentable-accepted-' + '+'.join(why),
+                    'an exception (value has no OSC representation)',
+                    dgram.hex()[:400] if isinstance(dgram, bytes)
+                    else repr(dgram), 'accepted and sent as altered bytes'))
+        outcome = ['accepted-unrepresentable', len(dgram)]
+    else:
+        d, dec = check_encoded('lib', dgram, expected, flat)
+        dis += d
+        outcome = ['accepted', len(dgram),
+                   (dec.get('tags'), dec.get('timetag')) if dec else None]
+    return dis, outcome, True
+
+
 def check_lib_once(case):
+    if 'lib' not in case:
+        return check_libx_once(case)
     py = jv(case['lib'])
     vd = Verdict()
     expected = exp_message(py, vd)
@@ -444,8 +642,12 @@ def work_lib(job):
         dis, outcome, nontriv = check_lib(case)
         for kind, exp, obs, detail in dis:
             acc.violation(kind, case, exp, obs, detail,
-                          standalone=lib_standalone(jv(case['lib'])))
+                          standalone=lib_standalone(jv(case['lib']))
+                          if 'lib' in case else libx_standalone(case))
         acc.case(case, nontrivial=nontriv, outcome=outcome)
+        if 'lib' not in case:
+            acc.count('lib_typed_or_raw_bundle_cases')
+            continue
         if dis:
             broken += 1
         if outcome[0].startswith('accepted') and outcome[1] > RUNAWAY:
@@ -492,6 +694,100 @@ VALUES_4 = [
 
 def msg_alphabet(n):
     return VALUES_4 if n >= 4 else VALUES
+
+
+# Extension family "msgx" (audit round): further members of every value class
+# (what the statement quantifies over: int32, float, str ASCII / non-ASCII,
+# bytes of any length, nested lists, markers) and further addresses.  They
+# are not multiplied into the <= 3 argument product above; see msgx_cases.
+VALUES_X = [
+    2 ** 32, 16909060, -2 ** 63,
+    {'f': '-inf'}, -1e39, 1e-40, 1e-50, 3.4028234663852886e38, 3.4028235e38,
+    3.4028236e38, 16777217.0, 1.0, -0.0,
+    'ab', 'abcdefg', '\u97f3', '\U0001d11e', 'a\xf1', '[]', '[[', ' [', '/x',
+    ',', ',i', 'a\x00', '\x00', {'u': ['d800']}, {'u': ['61', 'dfff', '62']},
+    {'b': '00'}, {'b': '00000000'}, {'b': 'ff00ff'},
+    {'b': '2f6100002c000000'}, {'b': '31323334353637'}, {'ba': ''},
+    {'mv': '31'}, {'ba': '3132333435'},
+    ['/m', []], ['/m', '[', 1, ']'], ['/m', '['], ['/m', ']'], [''], ['', 1],
+    ['/\xf1', '\xf1'], ['/m', {'u': ['d800']}], ['/m', {'b': ''}],
+    [0, ['/x']], [1, ['/x']], [-1, ['/x']], [0.1, ['/x', {'b': '31'}]],
+    [2 ** 32, ['/x']], [{'f': 'nan'}, ['/x']], [0.0, ['/x', 2 ** 31]],
+    [None, ['/x'], [None, ['/y']]], [1, ['/x'], [1, ['/y']]],
+]
+VALUES_ALL = VALUES + VALUES_X
+# One plain member per class, used as context for the positional lists.
+VALUES_S = [0, 0.5, 'a', 'abcd', {'b': '31'}, True, '[', ']', ['/m'],
+            [0.0, ['/x']]]
+ADDRS_X = ['/ab', '/\xf1', '/a\xf1', '/abcdefg', '/\u97f3', '', '/a\x00b',
+           {'u': ['2f', 'd800']}]
+
+
+def chain(pattern, depth, leaf):
+    """Nested list of the given depth: pattern 'm' message in message, 'b'
+    bundle in bundle (inside a message), 'mb' alternating."""
+    x = ['/l', leaf]
+    for d in range(depth):
+        k = pattern[d % len(pattern)]
+        x = ['/n', d, x] if k == 'm' else [0.0, ['/e', d], x] \
+            if not isinstance(x[0], str) else [0.0, x]
+    return x if isinstance(x[0], str) else ['/top', x]
+
+
+CHAIN_LEAVES = [{'b': '31'}, '\xf1', 2 ** 31, [], '[']
+
+
+_msgx = {}
+
+
+def msgx_cases(thorough):
+    """Canonical list of the extension cases (plain JSON)."""
+    if thorough in _msgx:
+        return _msgx[thorough]
+    out = []
+    # further addresses: no arguments, one argument over everything, two
+    # over the plain members
+    for a in ADDRS_X:
+        out.append([a])
+        for v in VALUES_ALL:
+            out.append([a, v])
+        for v in VALUES_S:
+            for w in VALUES_S:
+                out.append([a, v, w])
+    ctx3 = VALUES_4 if thorough else VALUES_S
+    for a in ADDRS_LONG:
+        for v in VALUES_X:
+            out.append([a, v])
+        # two arguments, at least one of them new
+        for i, v in enumerate(VALUES_ALL):
+            for j, w in enumerate(VALUES_ALL):
+                if i >= len(VALUES) or j >= len(VALUES):
+                    out.append([a, v, w])
+        # three arguments: the new value at each position
+        for x in VALUES_X:
+            for v in ctx3:
+                for w in ctx3:
+                    out.append([a, x, v, w])
+                    out.append([a, v, x, w])
+                    out.append([a, v, w, x])
+    # nesting "to any depth"
+    for depth in range(1, 9 if thorough else 7):
+        for pattern in ('m', 'b', 'mb', 'bm'):
+            for leaf in CHAIN_LEAVES:
+                out.append(chain(pattern, depth, leaf))
+    # many arguments (type tag string longer than one word)
+    plain = [v for v in VALUES_S if v not in ('[', ']')]
+    for n in (5, 6, 7, 8, 11, 12):
+        out.append(['/a'] + [plain[i % len(plain)] for i in range(n)])
+        out.append(['/a', '['] + list(range(n - 2)) + [']'])
+    seen, cases = set(), []
+    for m in out:
+        k = core.canon(m)
+        if k not in seen:
+            seen.add(k)
+            cases.append({'msg': m})
+    _msgx[thorough] = cases
+    return cases
 
 
 def msg_jobs(maxlen, addrs):
@@ -587,11 +883,19 @@ def check_msg_once(case):
     return dis, outcome, nontriv
 
 
+def msg_job_cases(job):
+    if job['part'] == 'msgx':
+        return [c for i, c in enumerate(msgx_cases(job['thorough']))
+                if i % job['of'] == job['shard']]
+    return msg_cases(job)
+
+
 def work_msg(job):
     acc = progenum.Acc()
-    if run_canary(acc, 'nrt', job['n'] == 0 and job['addr'] == ADDRS_Q[0]):
+    if run_canary(acc, 'nrt', job['part'] == 'msg' and job['n'] == 0 and
+                  job['addr'] == ADDRS_Q[0]):
         return acc.result()
-    for case in msg_cases(job):
+    for case in msg_job_cases(job):
         dis, outcome, nontriv = check_msg(case)
         for kind, exp, obs, detail in dis:
             acc.violation(kind, case, exp, obs, detail,
@@ -653,6 +957,59 @@ def bndl_cases(wide):
                 yield [t, m, b]
 
 
+# Extension family "bndlx" (audit round): latencies of every kind (int, float,
+# not a multiple of 2**-32, large, not representable), more than two elements
+# per bundle, deep chains.
+LATS_X = [None, -1, -0.5, 0, 0.1, 0.5, 1, 2.75, 1e6, 2 ** 32, {'f': 'inf'},
+          {'f': 'nan'}]
+LATS_S = [None, 0, 0.1, 1]
+
+_bndlx = {}
+
+
+def bndlx_cases(thorough):
+    if thorough in _bndlx:
+        return _bndlx[thorough]
+    out = []
+    M = [['/a'], ['/ab', {'b': '31'}, '\xf1\xf1\xf1\xf1', 1e-3]]
+    for t in LATS_X:
+        out.append([t])
+        for m in M:
+            out.append([t, m])
+        for u in LATS_X:
+            out.append([t, M[0], [u, M[1]]])
+            out.append([t, [u, M[1]], M[0]])
+            # the same pair as a completion bundle inside a message
+            out.append([0.0, ['/c', [t, M[0], [u, M[1]]]]])
+    for t in (LATS_X if thorough else LATS_S):
+        for u in LATS_S:
+            for v in LATS_S:
+                out.append([t, [u, [v, M[1]]]])
+    # three elements per bundle (messages and a nested bundle), then many
+    E = BM_Q + [[0.5, ['/a']]]
+    for t in (None, 0.5):
+        for combo in itertools.product(E, repeat=3):
+            out.append([t, *combo])
+    for n in (4, 5, 8, 17):
+        out.append([0.0] + [['/a', i] if i % 3 else [0.0, ['/b', i]]
+                            for i in range(n)])
+    # chains: bundle in bundle in ... with equal / growing latencies
+    for depth in range(1, 9 if thorough else 7):
+        for step in (0.0, 0.25, 0.1):
+            x = ['/l', {'b': '31'}, '\xf1']
+            for d in range(depth, 0, -1):
+                x = [step * d, ['/e', d], x] if d % 2 else [step * d, x]
+            out.append(x)
+    seen, cases = set(), []
+    for b in out:
+        k = core.canon(b)
+        if k not in seen:
+            seen.add(k)
+            cases.append(b)
+    _bndlx[thorough] = cases
+    return cases
+
+
 def bndl_count(wide):
     BM, d1, d2 = bundle_levels(wide)
     side = len(BM) + (len([b for b in d1 if len(b) <= 2]) if wide else 0)
@@ -693,6 +1050,13 @@ def check_bndl_once(case):
         if vd.status == ACCEPT:
             dis.append(('bndl-representable-refused', 'accepted',
                         f'{exc_name(err)}: {err}'[:300], ''))
+    elif vd.status == REFUSE:
+        dis.append(('bndl-unrepresentable-accepted-' +
+                    '+'.join(vd.refusal_reasons()),
+                    'an exception (value has no OSC representation)',
+                    dgram.hex()[:400] if isinstance(dgram, bytes)
+                    else repr(dgram), 'accepted and sent as altered bytes'))
+        outcome = ['accepted-unrepresentable', len(dgram)]
     else:
         d, dec = check_encoded('bndl', dgram, expected, py)
         dis += d
@@ -707,9 +1071,11 @@ def check_bndl_once(case):
 
 def work_bndl(job):
     acc = progenum.Acc()
-    if run_canary(acc, 'nrt', job['shard'] == 0):
+    if run_canary(acc, 'nrt', job['shard'] == 0 and job['part'] == 'bndl'):
         return acc.result()
-    for idx, b in enumerate(bndl_cases(job['wide'])):
+    gen = bndlx_cases(job['wide']) if job['part'] == 'bndlx' \
+        else bndl_cases(job['wide'])
+    for idx, b in enumerate(gen):
         if idx % job['of'] != job['shard']:
             continue
         case = {'bndl': b}
@@ -721,11 +1087,225 @@ def work_bndl(job):
         acc.count(f'bundles_depth_{bundle_depth(b)}')
         if outcome[0] == 'refused':
             acc.count('bndl_refused')
-        elif isinstance(outcome[2], str):
+        elif outcome[0] == 'accepted' and isinstance(outcome[2], str):
             acc.count('size_prediction_raised_dontcare')
         if outcome[0] == 'accepted' and outcome[1] > RUNAWAY:
             acc.count('shards_cut_runaway_encoding')
             break
+    return acc.result()
+
+
+# ---------------------------------------------------------------------------
+# part route (audit round): the public entry points that reach the encoder by
+# another way than _build_msg / _build_bundle - NetAddr.send_msg,
+# NetAddr.send_bundle, NetAddr.send_status_msg (NRT: the score entry is the
+# wire) - and the two transports' _send (UDP: the datagram itself; TCP: int32
+# size + packet, the OSC 1.0 stream framing) on an interface object whose
+# socket is a recorder.
+
+class _Recorder:
+    def __init__(self):
+        self.out = []
+
+    def sendto(self, data, target):
+        self.out.append(['sendto', bytes(data), target])
+        return len(data)
+
+    def send(self, data):
+        self.out.append(['send', bytes(data)])
+        return len(data)
+
+    def sendall(self, data):
+        self.out.append(['send', bytes(data)])
+
+    def close(self):
+        pass
+
+
+_transports = {}
+
+
+def transport(proto):
+    """A real OscUdpInterface / OscTcpInterface (never bound or connected)
+    whose socket is replaced by a recorder."""
+    if proto not in _transports:
+        from sc3.base import _oscinterface as osci
+        cls = osci.OscUdpInterface if proto == 'udp' else osci.OscTcpInterface
+        try:
+            obj = cls(57190 if proto == 'udp' else 57191)
+        except OSError:                 # no sockets in this sandbox
+            obj = cls.__new__(cls)
+            osci.OscInterface.__init__(obj, 57190)
+            obj._proto = proto
+        try:
+            obj._socket.close()
+        except Exception:
+            pass
+        obj._socket = _Recorder()
+        _transports[proto] = obj
+    _transports[proto]._socket.out = []
+    return _transports[proto]
+
+
+TRANSPORT_DATA = [
+    ['/a'], ['/abc', 1, 'x', {'b': '3132333435'}], ['/s', '\xf1', None, True],
+    [0.5, ['/a'], [1.0, ['/b', '\xf1']]], [None, ['/a', ['/c', 1]]],
+    ['/big', {'z': 60001}], [0.0, ['/big', {'z': 65400}], ['/a']],
+    ['/b256', {'z': 256}], ['/b65536', {'z': 65536}],
+]
+
+
+def route_cases(thorough):
+    out = [{'route': 'status', 'data': ['/status']}]
+    for a in ('/a', '/abcd'):
+        out.append({'route': 'send_msg', 'data': [a]})
+        for v in VALUES_ALL:
+            out.append({'route': 'send_msg', 'data': [a, v]})
+        for v in VALUES_S:
+            for w in VALUES_S:
+                out.append({'route': 'send_msg', 'data': [a, v, w]})
+    _, d1, d2 = bundle_levels(False)
+    for b in d1 + (d2 if thorough else d2[::7]) + bndlx_cases(thorough):
+        out.append({'route': 'send_bundle', 'data': b})
+    for proto in ('udp', 'tcp'):
+        for d in TRANSPORT_DATA:
+            out.append({'route': proto, 'data': d})
+    return out
+
+
+def route_standalone(case):
+    route, py = case['route'], jv(case['data'])
+    head = ("import sc3; sc3.init('nrt')\n"
+            "from sc3.base.main import main\n"
+            "from sc3.base.netaddr import NetAddr\n"
+            "n = NetAddr('127.0.0.1', 57110)\n")
+    tail = ("print([bytes(e.msg) for _, e in "
+            "main._osc_interface._osc_score._scoreq][1:])\n")
+    if route == 'status':
+        return head + "n.send_status_msg()\n" + tail
+    if route == 'send_msg':
+        return head + f"n.send_msg(*{pyrepr(py)})\n" + tail
+    if route == 'send_bundle':
+        return head + f"n.send_bundle(*{pyrepr(py)})\n" + tail
+    cls = 'OscUdpInterface' if route == 'udp' else 'OscTcpInterface'
+    build = '_build_msg' if isinstance(py[0], str) else '_build_bundle'
+    return (head + "from sc3.base import _oscinterface as osci\n"
+            "class Rec:\n"
+            "    def sendto(self, d, t): print('sendto', bytes(d)[:64], t)\n"
+            "    def send(self, d): print('send', bytes(d)[:64])\n"
+            f"i = osci.{cls}(57190); i._socket.close(); i._socket = Rec()\n"
+            f"i._send(main._osc_interface.{build}(0.0, {pyrepr(py)}), "
+            "('127.0.0.1', 57110))\n")
+
+
+def check_route(case):
+    L = lib()
+    L['main'].reset()
+    route, py = case['route'], jv(case['data'])
+    vd = Verdict()
+    dis = []
+    is_msg = isinstance(py[0], str)
+    expected = exp_message(py, vd) if is_msg else exp_bundle(py, vd)
+    nontriv = not is_msg or any(is_nontrivial_value(v) for v in py[1:]) \
+        or route in ('udp', 'tcp')
+    if route in ('udp', 'tcp'):
+        if vd.status != ACCEPT:
+            raise core.HarnessError('transport data must be representable')
+        iface = transport(route)
+        target = ('127.0.0.1', 57110)
+        try:
+            build = L['main']._osc_interface._build_msg if is_msg \
+                else L['main']._osc_interface._build_bundle
+            iface._send(build(0.0, jv(case['data'])), target)
+            err = None
+        except Exception as e:
+            err = e
+        out = list(iface._socket.out)
+        iface._socket.out = []
+        if err is not None:
+            return [(f'route-{route}-raised', 'packet handed to the socket',
+                     f'{exc_name(err)}: {err}'[:300], '')], \
+                ['raised', exc_name(err)], True
+        if route == 'udp':
+            if len(out) != 1 or out[0][0] != 'sendto':
+                return [('route-udp-datagram-count', 'one sendto',
+                         [o[0] for o in out], '')], ['calls', len(out)], True
+            if tuple(out[0][2]) != target:
+                dis.append(('route-udp-target', list(target),
+                            _short(out[0][2]), ''))
+            dgram = out[0][1]
+        else:
+            raw = b''.join(o[1] for o in out)
+            if any(o[0] != 'send' for o in out) or len(raw) < 4 or \
+                    int.from_bytes(raw[:4], 'big') != len(raw) - 4:
+                return [('route-tcp-size-prefix',
+                         'int32 big-endian packet size, then the packet',
+                         raw[:8].hex() + f' ... {len(raw)} bytes in all',
+                         'OSC 1.0 stream framing')], \
+                    ['framing', len(raw)], True
+            dgram = raw[4:]
+        d, dec = check_encoded(f'route-{route}', dgram, expected, py)
+        _last['dgram'] = dgram
+        return dis + d, [route, len(dgram)], True
+    warmup()
+    try:
+        if route == 'send_msg':
+            L['addr'].send_msg(*py)
+        elif route == 'send_bundle':
+            L['addr'].send_bundle(py[0], *py[1:])
+        else:
+            L['addr'].send_status_msg()
+        err = None
+    except Exception as e:
+        err = e
+    entries = score_entries()
+    L['main'].reset()
+    if err is not None:
+        if vd.status == ACCEPT:
+            dis.append((f'route-{route}-representable-refused', 'accepted',
+                        f'{exc_name(err)}: {err}'[:300], ''))
+        return dis, ['refused', exc_name(err)], nontriv
+    if vd.status == REFUSE:
+        dis.append((f'route-{route}-unrepresentable-accepted-' +
+                    '+'.join(vd.refusal_reasons()),
+                    'an exception (value has no OSC representation)',
+                    [e.hex()[:200] for e in entries][:2],
+                    'accepted and sent as altered bytes'))
+        return dis, ['accepted-unrepresentable', len(entries)], nontriv
+    if len(entries) != 1:
+        dis.append((f'route-{route}-datagram-count', 1, len(entries),
+                    'one call must put exactly one datagram on the wire'))
+        return dis, ['entries', len(entries)], nontriv
+    raw = entries[0]
+    dgram = raw[4:]
+    _last['dgram'] = dgram
+    if int.from_bytes(raw[:4], 'big') != len(dgram):
+        dis.append((f'route-{route}-score-prefix-wrong', len(dgram),
+                    int.from_bytes(raw[:4], 'big'), ''))
+    if is_msg:
+        # NRT sends a message as a bundle at the current time holding it.
+        expected = Alt(expected, {'type': 'bundle', 'timetag': ANY,
+                                  'elements': [expected]})
+    d, dec = check_encoded(f'route-{route}', dgram, expected, py)
+    return dis + d, [route, len(dgram), vd.status], nontriv
+
+
+def check_route_stable(case):
+    return stable('route', check_route, case)
+
+
+def work_route(job):
+    acc = progenum.Acc()
+    for idx, case in enumerate(route_cases(job['thorough'])):
+        if idx % job['of'] != job['shard']:
+            continue
+        dis, outcome, nontriv = check_route_stable(case)
+        for kind, exp, obs, detail in dis:
+            acc.violation(kind, case, exp, obs, detail,
+                          standalone=route_standalone(case)
+                          if len(core.canon(case)) < 600 else None)
+        acc.case(case, nontrivial=nontriv, outcome=outcome)
+        acc.count('route_' + case['route'])
     return acc.result()
 
 
@@ -745,8 +1325,17 @@ def element(spec, idx):
     if kind == 'n' and size >= 40:
         # bundle(1.0, one 's' message): 16 + 4 + message
         return [1.0, element(['s', size - 20], idx)]
+    if kind == 'i' and size >= 40:
+        # the same with an integer time
+        return [1, element(['s', size - 20], idx)]
     if kind == 'b' and size >= 20:
         return ['/a', idx, bytes(size - 19)]     # len % 4 == 1: 3 pad bytes
+    if kind == 'u' and size >= 20:
+        # non-ASCII string of size - 13 UTF-8 bytes (an odd number)
+        return ['/a', idx, '\xf1' * ((size - 13) // 2) + 'x']
+    if kind == 'c' and size >= 40:
+        # completion message: blob holding ['/b', string]
+        return ['/a', idx, ['/b', 'x' * (size - 25)]]
     return ['/a', idx, 'x' * (size - 13)]
 
 
@@ -769,29 +1358,59 @@ MANY_T = [1000, 5000, 5453, 5454, 5455, 5456, 5457, 5458,
 MANY_Q = [5000, 5454, 5456, 5458, 8181, 8183]
 
 
+# APIs of the split part.  'clumped' NetAddr.send_clumped_bundles; 'sync'
+# NetAddr.sync with a condition owned by the harness; audit round: 'syncnc'
+# NetAddr.sync with its default condition (the harness plays the server: reads
+# the /sync id off the wire and hands ['/synced', id] to the responder), 'bna'
+# the elements collected by a BundleNetAddr context manager (send_msg /
+# send_bundle / send_clumped_bundles on it) and flushed on exit, 'bnasrv' the
+# same through Server.bind(), 'bnasync' head elements collected, then
+# BundleNetAddr.sync(elements=tail) inside a routine, then one more message.
+SPLIT_APIS = ('clumped', 'sync', 'syncnc', 'bna', 'bnasrv', 'bnasync')
+SYNC_LIKE = ('sync', 'syncnc', 'bnasync')
+_split_cases = {}
+
+
 def split_cases(maxlen):
     """Canonical list of split cases (plain JSON).  maxlen 2 = quick tier
-    (5 size classes, 6 many-small counts with latency None), 3 = thorough."""
+    (5 size classes, 6 many-small counts with latency None), 3 = thorough.
+    The two original APIs get every kind and latency; the APIs added in the
+    audit round string elements only (what differs is the route, not the
+    sizes)."""
+    if maxlen in _split_cases:
+        return _split_cases[maxlen]
     cases = []
     quick = maxlen < 3
     CLASSES = CLASSES_Q if quick else CLASSES_T
-    targets = {'clumped': [LIB_LIMIT],
-               'sync': [LIB_LIMIT - SYNC_RESERVE, LIB_LIMIT - 20]}
-    for api in ('clumped', 'sync'):
+    for api in SPLIT_APIS:
+        old = api in ('clumped', 'sync')
+        targets = [LIB_LIMIT - SYNC_RESERVE, LIB_LIMIT - 20] \
+            if api in SYNC_LIKE else [LIB_LIMIT]
         for lat in (None, 0.5):
+            if not old and lat is not None and \
+                    (api in ('bna', 'bnasrv', 'bnasync') or quick):
+                # bna: no latency parameter.  bnasync: the flushes go out
+                # "now" and the sync clumps at now + latency, so the score
+                # (ordered by time) would no longer show the send order.
+                continue
             # size classes + a filler landing the total on target + delta
             for n in range(0, maxlen + 1):
                 for combo in itertools.product(CLASSES, repeat=n):
                     base = 16 + sum(s + 4 for s in combo)
                     variants = []
-                    for tgt in targets[api]:
+                    for tgt in targets:
                         for d in DELTAS:
                             fill = tgt + d - base - 4
                             sizes = list(combo) + ([fill] if fill >= 40
                                                    else [])
                             if sizes and sizes not in variants:
                                 variants.append(sizes)
-                    for kind in (('s', 'b', 'n') if lat is None else ('s',)):
+                    kinds = ('s',)
+                    if old and lat is None:
+                        # kinds added in the audit round only for <= 1 class
+                        kinds = ('s', 'b', 'n') + \
+                            (('u', 'c', 'i') if n <= 1 else ())
+                    for kind in kinds:
                         for sizes in variants:
                             if kind != 's' and \
                                     not any(s >= 40 for s in sizes):
@@ -805,8 +1424,16 @@ def split_cases(maxlen):
                 continue
             for size in (8, 12):
                 for n in (MANY_Q if quick else MANY_T):
+                    if not old and n not in (5454, 5456, 8181, 8183):
+                        continue
                     cases.append({'api': api, 'lat': lat,
                                   'many': [n, size]})
+        if api in ('sync', 'syncnc'):
+            # nothing to send before /sync: elements None (default) and []
+            for lat in (None, 0.5):
+                cases.append({'api': api, 'lat': lat, 'els': None})
+                cases.append({'api': api, 'lat': lat, 'els': []})
+    _split_cases[maxlen] = cases
     return cases
 
 
@@ -814,6 +1441,8 @@ def split_elements(case):
     if 'many' in case:
         n, size = case['many']
         return [element(['s', size], i) for i in range(n)]
+    if case['els'] is None:
+        return []
     return [element(spec, i) for i, spec in enumerate(case['els'])]
 
 
@@ -867,6 +1496,106 @@ def drive_sync(lat, elements):
     return state['err']
 
 
+def _reply_synced():
+    """Play the server: take the id of the last /sync on the wire (decoded by
+    the independent reader) and hand ['/synced', id] to the library's
+    responder for that path."""
+    L = lib()
+    from sc3.base.responders import OscFunc
+    ids = []
+    entries = score_entries()
+    if entries and entries[-1][-16:-4] == b'/sync\x00\x00\x00,i\x00\x00':
+        ids = [int.from_bytes(entries[-1][-4:], 'big', signed=True)]
+        entries = []
+    for raw in entries:
+        try:
+            dec = osc10.decode(raw[4:])
+        except osc10.OscError:
+            continue
+        if dec['type'] == 'bundle':
+            ids += [e['args'][0] for e in dec['elements']
+                    if e['type'] == 'message' and e['address'] == '/sync'
+                    and e['args']]
+    if not ids:
+        return
+    for p in sorted((p for p in OscFunc._all_func_proxies
+                     if getattr(p, 'path', None) == '/synced'),
+                    key=lambda p: repr(p)):
+        p.func(['/synced', ids[-1]], 0.0, L['addr'], 57120)
+
+
+def drive_routine(body):
+    """Run the generator function `body` in a routine next to a routine that
+    answers every /sync; returns the exception raised inside or None."""
+    L = lib()
+    from sc3.base.stream import Routine
+    from sc3.base.responders import OscFunc
+    state = {'done': False, 'err': None}
+
+    def driver():
+        try:
+            yield from body()
+        except Exception as e:
+            state['err'] = e
+        state['done'] = True
+
+    def server():
+        for _ in range(64):
+            yield 1
+            if state['done']:
+                return
+            _reply_synced()
+
+    Routine(driver).play()
+    Routine(server).play()
+    try:
+        L['main']._clock_scheduler.run()
+    finally:
+        for p in list(OscFunc._all_func_proxies):
+            p.free()
+    if not state['done']:
+        return RuntimeError('routine did not finish within 64 replies')
+    return state['err']
+
+
+def bna_add(b, i, e):
+    """Hand element i to a BundleNetAddr by one of its three collecting
+    methods (messages only can go through send_msg)."""
+    r = i % 3
+    if r == 0 and isinstance(e[0], str):
+        b.send_msg(*e)
+    elif r == 1:
+        b.send_clumped_bundles(None, e)
+    else:
+        b.send_bundle(0.25, e)
+
+
+def drive_bna(api, lat, elements, raw_els):
+    L = lib()
+    from sc3.base.netaddr import BundleNetAddr
+    if api == 'bnasrv':
+        from sc3.synth.server import Server
+        with Server.default.bind() as b:
+            for i, e in enumerate(elements):
+                bna_add(Server.default.addr, i, e)
+        return None
+    if api == 'bna':
+        with BundleNetAddr(L['addr']) as b:
+            for i, e in enumerate(elements):
+                bna_add(b, i, e)
+        return None
+    k = (len(elements) + 1) // 2
+    head, tail = elements[:k], elements[k:]
+
+    def body():
+        with BundleNetAddr(L['addr']) as b:
+            for i, e in enumerate(head):
+                bna_add(b, i, e)
+            yield from b.sync(None, lat, tail if tail else None)
+            b.send_msg('/z')
+    return drive_routine(body)
+
+
 def split_standalone(case):
     api, lat = case['api'], case['lat']
     if 'many' in case:
@@ -881,9 +1610,25 @@ def split_standalone(case):
             "from sc3.base.stream import Routine, Condition\n"
             "n = NetAddr('127.0.0.1', 57110)\n"
             f"els = {els}\n")
+    if case.get('els', 0) is None:
+        head = head.replace('els = []', 'els = None')
+    add = ("    for i, e in enumerate(ELS):\n"
+           "        if i % 3 == 0 and isinstance(e[0], str): b.send_msg(*e)\n"
+           "        elif i % 3 == 1: b.send_clumped_bundles(None, e)\n"
+           "        else: b.send_bundle(0.25, e)\n")
+    server = ("from sc3.base.responders import OscFunc\n"
+              "def server():\n"
+              "    while not done:\n"
+              "        yield 1\n"
+              "        for p in list(OscFunc._all_func_proxies):\n"
+              "            if p.path == '/synced':\n"
+              "                for i in range(2000):\n"
+              "                    p.func(['/synced', i], 0.0, n, 57120)\n")
+    run = ("Routine(driver).play(); Routine(server).play()\n"
+           "main._clock_scheduler.run()\n")
     if api == 'clumped':
         body = f"n.send_clumped_bundles({lat!r}, *els)\n"
-    else:
+    elif api == 'sync':
         body = ("cond = Condition(); done = []\n"
                 "def driver():\n"
                 f"    yield from n.sync(cond, {lat!r}, els); done.append(1)\n"
@@ -891,8 +1636,29 @@ def split_standalone(case):
                 "    while not done:\n"
                 "        yield 1\n"
                 "        cond.test = True; cond.signal(); cond.test = False\n"
-                "Routine(driver).play(); Routine(server).play()\n"
-                "main._clock_scheduler.run()\n")
+                + run)
+    elif api == 'syncnc':
+        body = ("done = []\n"
+                "def driver():\n"
+                f"    yield from n.sync(None, {lat!r}, els); done.append(1)\n"
+                + server + run)
+    elif api == 'bna':
+        body = ("from sc3.base.netaddr import BundleNetAddr\n"
+                "with BundleNetAddr(n) as b:\n" + add.replace('ELS', 'els'))
+    elif api == 'bnasrv':
+        body = ("from sc3.synth.server import Server\n"
+                "with Server.default.bind():\n"
+                "    b = Server.default.addr\n" + add.replace('ELS', 'els'))
+    else:
+        body = ("from sc3.base.netaddr import BundleNetAddr\n"
+                "done = []; k = (len(els) + 1) // 2\n"
+                "def driver():\n"
+                "  with BundleNetAddr(n) as b:\n" +
+                add.replace('ELS', 'els[:k]').replace('    ', '      ')
+                .replace('      for', '    for', 1) +
+                f"    yield from b.sync(None, {lat!r}, els[k:] or None)\n"
+                "    b.send_msg('/z')\n"
+                "  done.append(1)\n" + server + run)
     tail = ("print([len(e.msg) - 4 for _, e in "
             "main._osc_interface._osc_score._scoreq][1:], "
             "'datagram sizes; UDP limit 65507')\n")
@@ -910,8 +1676,15 @@ def check_split(case):
         raise core.HarnessError('split alphabet must be representable')
     # real sizes from the independent encoder
     real_sizes = [len(osc10.encode(_concrete(x))) for x in exp_elems]
+    if api == 'bnasync':
+        exp_elems.append(exp_message(['/z'], vd))
+    if case.get('els'):
+        want_sizes = [sp[1] for sp in case['els']]
+        if real_sizes[:len(want_sizes)] != want_sizes:
+            raise core.HarnessError(
+                f'element size model broken: {want_sizes} != {real_sizes}')
     total = 16 + sum(s + 4 for s in real_sizes)
-    extra = 20 if api == 'sync' else 0
+    extra = 20 if api in SYNC_LIKE else 0
     fits_alone = all(16 + 4 + s + extra <= UDP_LIMIT for s in real_sizes)
     dis = []
     kindsfx = '-' + size_causes(elements) if size_causes(elements) != 'other' \
@@ -926,13 +1699,23 @@ def check_split(case):
         if api == 'clumped':
             L['addr'].send_clumped_bundles(lat, *split_elements(case))
             err = None
+        elif api == 'sync':
+            err = drive_sync(lat, split_elements(case)
+                             if case.get('els', 0) is not None else None)
+        elif api == 'syncnc':
+            arg = split_elements(case) \
+                if case.get('els', 0) is not None else None
+
+            def body():
+                yield from L['addr'].sync(None, lat, arg)
+            err = drive_routine(body)
         else:
-            err = drive_sync(lat, split_elements(case))
+            err = drive_bna(api, lat, split_elements(case), case.get('els'))
     except Exception as e:
         err = e
     dgrams = score_entries()
     if err is not None:
-        dis.append(('split-raised', 'elements sent',
+        dis.append((f'split-raised-{api}', 'elements sent',
                     f'{exc_name(err)}: {err}'[:300], ''))
         L['main'].reset()
         return dis, ['raised', exc_name(err)], True
@@ -958,8 +1741,9 @@ def check_split(case):
         els = [e for e in dec['elements']
                if not (e['type'] == 'message' and e['address'] == '/sync')]
         nsync = len(dec['elements']) - len(els)
-        if api == 'sync' and (nsync != 1 or
-                              dec['elements'][-1].get('address') != '/sync'):
+        if api in ('sync', 'syncnc') and (
+                nsync != 1 or
+                dec['elements'][-1].get('address') != '/sync'):
             dis.append(('split-sync-marker', 'exactly one trailing /sync',
                         f'{nsync} /sync elements', ''))
         if not els:
@@ -1025,7 +1809,41 @@ def drecv_cases(thorough):
         span = range(-8, 9) if thorough else (-5, -4, -3, -1, 0, 1, 4)
         for d in span:
             cases.append({'deflen': edge + d, 'completion': comp})
+    # audit round: the public routes to _do_send (SynthDef.send with a server
+    # / with every booted server and a completion *function*, SynthDef.add
+    # with a completion function) and a server that is not local (nothing
+    # can be loaded from a file there)
+    for ci, comp in enumerate(COMPLETIONS):
+        if not thorough and ci not in (0, 2):
+            continue
+        edge = LIB_LIMIT - 16 - L[ci]
+        for d in (range(-8, 9, 2) if thorough else (-4, 0, 4)):
+            for route in DRECV_ROUTES:
+                cases.append({'deflen': edge + d, 'completion': comp,
+                              'route': route})
     return cases
+
+
+DRECV_ROUTES = ('send', 'send_fn', 'add_fn', 'remote')
+
+
+def drecv_call(sd, route, comp):
+    import types
+    from sc3.synth.server import Server
+    if route == 'do_send':
+        sd._do_send(Server.default, comp)
+    elif route == 'send':
+        sd.send(Server.default, comp)
+    elif route == 'send_fn':
+        sd.send(None, lambda server: comp)
+    elif route == 'add_fn':
+        sd.add(completion_msg=lambda server: comp)
+    elif route == 'remote':
+        NetAddr = lib()['NetAddr']
+        sd._do_send(types.SimpleNamespace(
+            addr=NetAddr('192.168.0.9', 57110), name='remote'), comp)
+    else:
+        raise core.HarnessError(f'unknown route {route}')
 
 
 def lib_free_sizes():
@@ -1072,7 +1890,16 @@ def drecv_standalone(case):
             f"    for i in range({n}):\n"
             "        Out.ar(0, SinOsc.ar(100 + i))\n"
             f"sd = SynthDef({('c06' + 'a' * k)[:k]!r}, graph)\n"
-            f"sd._do_send(Server.default, {pyrepr(jv(case['completion']))})\n"
+            f"comp = {pyrepr(jv(case['completion']))}\n" +
+            {'do_send': "sd._do_send(Server.default, comp)\n",
+             'send': "sd.send(Server.default, comp)\n",
+             'send_fn': "sd.send(None, lambda server: comp)\n",
+             'add_fn': "sd.add(completion_msg=lambda server: comp)\n",
+             'remote': "import types\n"
+                       "from sc3.base.netaddr import NetAddr\n"
+                       "sd._do_send(types.SimpleNamespace(addr=NetAddr("
+                       "'192.168.0.9', 57110), name='remote'), comp)\n",
+             }[case.get('route', 'do_send')] +
             "e = list(main._osc_interface._osc_score._scoreq)[-1][1]\n"
             "print(len(sd.as_bytes()), 'def bytes; /d_recv message of', "
             "len(e.msg) - 24, 'bytes; UDP limit 65507')\n")
@@ -1099,7 +1926,7 @@ def check_drecv(case):
     tempfile.tempdir = tmp        # Platform.tmp_dir = tempfile.gettempdir()
     try:
         try:
-            sd._do_send(Server.default, comp)
+            drecv_call(sd, case.get('route', 'do_send'), comp)
             err = None
         except Exception as e:
             err = e
@@ -1112,9 +1939,35 @@ def check_drecv(case):
         for m in dec['elements']:
             # RT sends the bare message: its size is the element size.
             sent.append([m['address'], len(osc10.encode(m))])
+            # what was sent must be what was given: the definition bytes
+            # (or the file name, not checked here) and the completion message
+            if m['address'] in ('/d_recv', '/d_load'):
+                vd = Verdict()
+                want = exp_message([m['address'],
+                                    bytes(sd.as_bytes())
+                                    if m['address'] == '/d_recv' else 'path',
+                                    comp], vd)
+                if m['address'] == '/d_load':
+                    want['args'][0] = ANY
+                diff = match(want, m)
+                if diff:
+                    shown = dict(m)
+                    if m['address'] == '/d_load' and m['args'] and \
+                            isinstance(m['args'][0], str):
+                        # temporary directory: not reproducible
+                        shown['args'] = ['<path>'] + list(m['args'][1:])
+                    dis.append(('drecv-roundtrip-mismatch-' +
+                                m['address'].strip('/'),
+                                _short(want, 300), _short(shown, 300), diff))
+    bundle_comp = isinstance(comp, list) and comp and \
+        not isinstance(comp[0], str)
     if err is not None:
         outcome = ['raised', exc_name(err)]     # don't-care (size prediction
         # of bundle-shaped completion messages raises; see module docstring)
+        if not bundle_comp:
+            dis.append(('drecv-raised', 'definition sent or loaded',
+                        f'{exc_name(err)}: {err}'[:300],
+                        'completion message is None or message-shaped'))
     else:
         outcome = ['sent', sent]
         for addr, size in sent:
@@ -1160,18 +2013,23 @@ def work_drecv(job):
 
 def REPLAY_MODE(v):
     c = v['case']
-    return 'import' if 'lib' in c or c.get('canary') == 'lib' else 'nrt'
+    return 'import' if 'lib' in c or 'libx' in c or 'libb' in c or \
+        c.get('canary') == 'lib' else 'nrt'
 
 
 def _which(case):
     if 'canary' in case:
         return check_canary
-    if 'lib' in case:
+    if 'lib' in case or 'libx' in case or 'libb' in case:
         return check_lib
     if 'msg' in case:
         return check_msg
     if 'bndl' in case:
         return check_bndl
+    if 'deflen' in case:
+        return check_drecv
+    if 'route' in case:
+        return check_route_stable
     if 'api' in case:
         return check_split
     if 'deflen' in case:
@@ -1197,7 +2055,9 @@ def _pred_case_has(v, what):
         py = split_elements(case)
     else:
         py = jv(case.get('msg') or case.get('bndl') or
-                case.get('completion') or [])
+                case.get('completion') or case.get('data') or
+                case.get('lib') or case.get('libx') or case.get('libb') or
+                [])
     for x in _walk(py):
         if what == 'blob' and isinstance(x, (bytes, bytearray, memoryview)) \
                 and len(x) % 4:
@@ -1248,14 +2108,18 @@ def main(ctx):
     addrs = ADDRS_Q
     ctx.rule = (
         'E1: every message = address x argument list (all lists up to the '
-        'stated length over the value alphabet), every bundle nesting up to '
-        'depth 3, every split case, is encoded by the real library and '
-        'decoded by an independent strict OSC 1.0 reader. A message case is '
+        'stated length over the value alphabet, plus the listed extension '
+        'families), every bundle nesting up to depth 3 (plus latency / '
+        'width / depth families), every route case, every split case, is '
+        'encoded by the real library and decoded by an independent strict '
+        'OSC 1.0 reader. A message case is '
         'non-trivial when an argument is padded (string/blob whose payload '
         'is not a multiple of 4), coerced (None/bool/[]/float not exact in '
         'float32), a bracket marker or a nested list; every bundle case '
-        'nests by construction; a split case is non-trivial when a total or '
-        'a datagram is within 8 bytes of a limit or the list was split.')
+        'nests by construction; typed-argument / raw-bundle cases of the '
+        'plain builder and transport cases always count (they exist only '
+        'for the type or framing); a split case is non-trivial when a total '
+        'or a datagram is within 8 bytes of a limit or the list was split.')
     ctx.assumptions += [
         'oracle: mc/oracles/osc10.py, strict OSC 1.0 reader/writer typed in '
         'from the specification (self-tested on the spec examples); strings '
@@ -1267,8 +2131,15 @@ def main(ctx):
         '(OscScore.add encodes with the same _build_bundle); timetags are '
         'absolute from zero outside routines, "immediately" may be 0 or 1',
         'UDP payload limit 65507 bytes (IPv4)',
+        'OSC 1.0 stream framing for TCP: int32 big-endian size, then the '
+        'packet',
+        'a string with a lone surrogate, an empty address, a latency that '
+        'is NaN, infinite or >= 2^32 s have no representation (refusal '
+        'demanded)',
         'python struct is trusted for float32 rounding']
     ctx.bounds['alphabet_values'] = {'evaluations': 0, 'n': len(VALUES)}
+    ctx.extra['alphabet_values_extension'] = len(VALUES_X)
+    ctx.extra['addresses'] = len(ADDRS_Q) + len(ADDRS_X)
     import time
     t0 = time.time()
 
@@ -1282,8 +2153,12 @@ def main(ctx):
     n_before = ctx.evaluations
     progenum.run(ctx, MODNAME, 'work_lib', jobs, mode='import',
                  bound=f'osclib builder: {len(ADDRS_Q)} addresses x <= 2 '
-                       f'args over {len(PURE)} plain OSC values')
-    n_lib = ctx.evaluations - n_before
+                       f'args over {len(PURE)} plain OSC values; '
+                       f'{len(ADDRS_LIBX)} addresses x <= 2 typed args over '
+                       f'{len(TYPED)} (value, type) pairs; bundle builder: '
+                       f'{len(RAW_TT)} raw timetags, nesting <= 3')
+    n_lib = ctx.evaluations - n_before - \
+        ctx.extra.get('lib_typed_or_raw_bundle_cases', 0)
     lap('lib')
     broken = ctx.extra.get('lib_cases_with_disagreement', 0)
     if ctx.extra.get('shards_cut_state_leak'):
@@ -1314,6 +2189,20 @@ def main(ctx):
                   f'{len(ADDRS_LONG)} addresses x 3 args, over '
                   f'{len(VALUES)} values'))
     lap('msg')
+    of = 64
+    jobs = [{'part': 'msgx', 'shard': i, 'of': of, 'thorough': thorough}
+            for i in range(of)]
+    progenum.run(ctx, MODNAME, 'work_msg', jobs, mode='nrt',
+                 bound=f'messages, extension: {len(ADDRS_X)} further '
+                       f'addresses (non-ASCII, empty, NUL, every padding) x '
+                       f'<= 1 arg over {len(VALUES_ALL)} values and 2 args '
+                       f'over {len(VALUES_S)}; {len(ADDRS_LONG)} addresses x '
+                       f'{len(VALUES_X)} further values alone, paired with '
+                       f'every value, and at each position of 3 args with '
+                       f'{len(VALUES_4 if thorough else VALUES_S)}^2 '
+                       f'contexts; nesting chains to depth '
+                       f'{8 if thorough else 6}; 5-12 arguments')
+    lap('msgx')
     if ctx.extra.get('shards_cut_state_leak'):
         only_leak(ctx)
         ctx.caps.append('the message encoder keeps state between messages: '
@@ -1335,6 +2224,31 @@ def main(ctx):
                         'bundle of <= 1 element)' if thorough else
                         ' (depth 3: depth-2 element + optional message)'))
     lap('bndl')
+    of = 16
+    jobs = [{'part': 'bndlx', 'shard': i, 'of': of, 'wide': thorough}
+            for i in range(of)]
+    progenum.run(ctx, MODNAME, 'work_bndl', jobs, mode='nrt',
+                 bound=f'bundles, extension: {len(LATS_X)} latencies (int, '
+                       'float, not a multiple of 2^-32, 1e6, 2^32, inf, nan) '
+                       'in pairs outer x nested (either order, and as a '
+                       'completion bundle inside a message), triples over '
+                       f'{len(LATS_S)}, 3 elements per bundle over 3 element '
+                       'shapes, 4-17 elements, chains to depth '
+                       f'{8 if thorough else 6}')
+    lap('bndlx')
+    # --- other entry points
+    of = 16
+    jobs = [{'part': 'route', 'shard': i, 'of': of, 'thorough': thorough}
+            for i in range(of)]
+    progenum.run(ctx, MODNAME, 'work_route', jobs, mode='nrt',
+                 bound='routes: NetAddr.send_msg (2 addresses x <= 1 arg '
+                       f'over {len(VALUES_ALL)} values, 2 args over '
+                       f'{len(VALUES_S)}), NetAddr.send_bundle (depth-1, '
+                       + ('all' if thorough else 'every 7th') +
+                       ' depth-2 and all extension bundles), '
+                       'send_status_msg; UDP and TCP _send x '
+                       f'{len(TRANSPORT_DATA)} packets')
+    lap('route')
     # --- splitting
     of = 64
     sl = 3 if thorough else 2
@@ -1344,10 +2258,15 @@ def main(ctx):
                  bound=f'split: <= {sl} elements from '
                        f'{len(CLASSES_T if thorough else CLASSES_Q)} size '
                        'classes + filler, totals on limit + {-8..8}, kinds '
-                       'string/blob/nested bundle, '
+                       'string/blob/nested bundle (<= 1 class: also '
+                       'non-ASCII string, completion message, int-timed '
+                       'bundle), '
                        f'{len(MANY_T if thorough else MANY_Q)} many-small '
-                       'counts x 2 sizes, send_clumped_bundles and sync, '
-                       'latency None / 0.5')
+                       'counts x 2 sizes, send_clumped_bundles and sync '
+                       '(latency None / 0.5; sync also without elements); '
+                       'string elements through sync with its own '
+                       'condition, BundleNetAddr (direct and Server.bind) '
+                       'flush, BundleNetAddr.sync in a routine')
     lap('split')
     # --- /d_recv
     of = 16
@@ -1355,6 +2274,10 @@ def main(ctx):
             for i in range(of)]
     progenum.run(ctx, MODNAME, 'work_drecv', jobs, mode='nrt',
                  bound='d_recv: real SynthDefs of edge + offsets bytes x 5 '
-                       'completion messages')
+                       'completion messages through _do_send; '
+                       + ('5' if thorough else '2') + ' completions x '
+                       + ('9' if thorough else '3') + ' offsets through '
+                       'send(server), send(None, function), add(function) '
+                       'and to a non-local address')
     lap('drecv')
     ctx.extra['udp_limit'] = UDP_LIMIT
